@@ -38,7 +38,8 @@ func Run(args []string) error {
 		return err
 	}
 	defer os.RemoveAll(dir)
-	sqlfault.BusyTimeout(50) // a look-up that needs the store's lock while a transaction is open waits 50 ms, not 5 s
+	sqlfault.BusyTimeout(50)
+	sqlfault.CacheSize(8) // a host short of memory: statements read their pages from the file (harness/iofault can strike) // a look-up that needs the store's lock while a transaction is open waits 50 ms, not 5 s
 	r := &runner{w: w, rng: rand.New(rand.NewSource(tr.Seed())), dir: dir, opts: Options{Twin: *twin, PerMethod: *per, ReadFaultQueries: *rfq}}
 	for i, b := range bs {
 		var mk func(dir string, rng *rand.Rand) (kindDriver, error)
